@@ -148,7 +148,7 @@ func runProperty(p *Program, s *Specs, prop string, cfg SolveConfig) *CheckResul
 		}
 		res.Units = append(res.Units, u)
 	}
-	if prop == "C12" {
+	if prop == "C12" || prop == "ALL" {
 		// channel ownership / cancellation discipline over the whole repository (structural, see ownership.go)
 		a := newOwnAnalysis(p)
 		u := &unitResult{key: "channel ownership (all make(chan) sites of /repo)", kind: "ownership"}
